@@ -141,15 +141,16 @@ type Trace struct {
 // Keyper is one keyper: a database that lives as long as the run, and a process incarnation (pool,
 // ShuttermintState, message sender) that is replaced on restart.
 type Keyper struct {
-	Index         int
-	Key           *ecdsa.PrivateKey // signs shuttermint transactions
-	Address       common.Address
-	EncKey        *ecdsa.PrivateKey // ECIES key announced in the check-in
-	ValKey        ed25519.PrivateKey
-	Config        *kprconfig.Config
-	Srv           *pgfake.Server
-	Strategy      *Strategy // nil: honest
-	stashedCommit []outMsg  // EvalFirst: commitment waiting for the evaluations
+	Index           int
+	Key             *ecdsa.PrivateKey // signs shuttermint transactions
+	Address         common.Address
+	EncKey          *ecdsa.PrivateKey // ECIES key announced in the check-in
+	ValKey          ed25519.PrivateKey
+	Config          *kprconfig.Config
+	Srv             *pgfake.Server
+	Strategy        *Strategy // nil: honest
+	stashedCommit   []outMsg  // EvalFirst: commitment waiting for the evaluations
+	unsolicitedSent map[uint64]bool
 
 	rig *Rig
 
